@@ -297,6 +297,8 @@ def alternatives(s, op, plus=True):
                 m2.r[2] |= 1
                 return [(None, m2), (None, n)]
         return same
+    if name == "exit_exc":
+        name = "exit"
     if name == "exit":
         r[0] &= ~2
         n.ce = False
@@ -361,6 +363,10 @@ def apply_to_driver(obj, op):
             return None, None
         if name == "exit":
             return None, obj.__exit__(None, None, None)
+        if name == "exit_exc":
+            # the block is left by an exception (with semantics: __exit__ gets the exception triple)
+            e = ValueError("raised inside the block")
+            return None, obj.__exit__(ValueError, e, None)
         if name == "enter":
             obj.__enter__()
             return None, None
